@@ -21,6 +21,9 @@ Inductive NEq : json -> json -> Prop :=
 Section RT.
 Variable Sg : sigma.
 Variable py_str : json -> string.
+(* NL c k = true: the member k of class c may carry an explicit null (a parameter: the Python annotations cannot tell an optional
+   property from a null-admitting one; instantiated from the metamodel in LSP.Link, or with "always" for the Python-only reading) *)
+Variable NL : string -> string -> bool.
 Notation structure := (structure Sg py_str).
 Notation step := (step Sg py_str).
 Notation has_type := (has_type Sg).
@@ -59,7 +62,7 @@ Inductive pvalid : pty -> json -> Prop :=
 | pv_tuple ts l : Forall2 pvalid ts l -> pvalid (PyTuple ts) (JArr l)
 | pv_dict k v m : NoDup (keys m) -> (forall a b, In (a, b) m -> pvalid v b) -> k = PyStr -> pvalid (PyDict k v) (JObj m)
 | pv_cls c fs m : lookup_cls Sg c = Some fs -> NoDup (keys m) ->
-    (forall k v, In (k, v) m -> exists f, In f fs /\ fwire f = k /\ pvalid (ftype f) v /\ jvalidate f v = true) ->
+    (forall k v, In (k, v) m -> exists f, In f fs /\ fwire f = k /\ pvalid (ftype f) v /\ jvalidate f v = true /\ (v = JNull -> NL c k = true)) ->
     (forall f, In f fs -> must_present f = true -> In (fwire f) (keys m)) -> pvalid (PyCls c) (JObj m)
 | pv_union ms t j : In t ms -> pvalid t j -> pvalid (PyUnion ms) j.
 
@@ -220,7 +223,8 @@ Variable py_str : json -> string.
 Notation structure := (structure Sg py_str).
 Notation has_type := (has_type Sg).
 Notation den := (den Sg).
-Notation pvalid := (pvalid Sg).
+Variable NL : string -> string -> bool.
+Notation pvalid := (pvalid Sg NL).
 Notation Good := (Good Sg py_str).
 
 (* table conditions (each is a decidable predicate over the package table, discharged by vm_compute on the instance) *)
@@ -513,7 +517,7 @@ Proof.
       unfold okty in *. cbn [flat_ty handled] in O. apply andb_true_iff in O. destruct O as [O1 O2].
       apply andb_true_iff in O1. apply andb_true_iff in O2. rewrite (proj2 O1), (proj2 O2). reflexivity.
     - assert (InG : mem c GC = true) by (unfold okty in O; cbn [flat_ty handled andb] in O; exact O).
-      apply (cls_case c fs m InG L ND); [|exact HR]. intros k0 v I. destruct (HP k0 v I) as [f [If [Ef [Vf Jf]]]].
+      apply (cls_case c fs m InG L ND); [|exact HR]. intros k0 v I. destruct (HP k0 v I) as [f [If [Ef [Vf [Jf _]]]]].
       exists f. repeat split; auto. apply SUB; [exact (jsize_in_obj k0 v m I) | exact (T_fields c fs f InG L If) | exact Vf].
     - discriminate. }
   (* B: all annotations *)
